@@ -153,7 +153,12 @@ class Number(Parser):
         stream.take()
         while stream.peek().isdecimal():
             out += stream.take()
-        output.append(int(out))
+        try:
+            value = int(out)
+        except ValueError:
+            # CPython refuses to convert very long digit strings
+            stream.error('<number>')
+        output.append(value)
 
     def __str__(self):
         return '<number>'
